@@ -27,6 +27,10 @@ type minimiser struct {
 	deadline time.Time
 	research int // schedule seeds tried per candidate
 	retries  int // extra attempts per candidate (race reports are probabilistic, see DESIGN §4.6)
+	// checkpoint, if set, is called with every candidate that reproduced (each is at most as large
+	// as the one before): a candidate that never terminates takes the process down with it, and
+	// what was reached until then should not be lost
+	checkpoint func(spec *RunSpec, rep *RunReport, oc *Outcome, hit *Violation)
 }
 
 func cloneSpec(s *RunSpec) *RunSpec {
@@ -49,10 +53,13 @@ func (m *minimiser) try(spec *RunSpec) (*RunSpec, *RunReport, *Outcome) {
 		}
 		m.execs++
 		rep, oc := m.execute(spec)
-		for _, v := range rep.Violations {
+		for i, v := range rep.Violations {
 			if v.Sig == m.sig {
 				c := cloneSpec(spec)
 				c.Sim.Replay = oc.Recorded
+				if m.checkpoint != nil {
+					m.checkpoint(c, rep, oc, &rep.Violations[i])
+				}
 				return c, rep, oc
 			}
 		}
@@ -307,6 +314,22 @@ func minimise(t *testing.T, rf *ReplayFile, execute func(*RunSpec) (*RunReport, 
 		m.deadline = time.Now().Add(150 * time.Second)
 	}
 	before := specSize(rf.Spec)
+	nckpt := 0
+	if rf.Violation.Class != "race" {
+		m.checkpoint = func(spec *RunSpec, rep *RunReport, oc *Outcome, hit *Violation) {
+			nckpt++
+			out := ReplayFile{Property: "C20", Spec: spec, Violation: *hit, All: rep.Violations, Ref: oc.Ref, Sim: oc.Sim, Trace: oc.Trace, Minimised: true,
+				Note: fmt.Sprintf("partly minimised from %s to %s (checkpoint %d after %d executions; the minimiser was stopped later)", before, specSize(spec), nckpt, m.execs), ResultHash: rep.ResultHash, GoMaxProcs: rf.GoMaxProcs}
+			if rep.Stats != nil {
+				out.TraceHash = rep.Stats.TraceHash
+			}
+			b, _ := json.MarshalIndent(out, "", " ")
+			if os.WriteFile(path+".ckpt.tmp", b, 0o644) == nil {
+				os.Rename(path+".ckpt.tmp", path+".ckpt")
+			}
+		}
+		defer os.Remove(path + ".ckpt") // only a minimiser that did not get here leaves one behind
+	}
 	res := m.run(rf.Spec)
 	if res == nil {
 		fmt.Printf("MINIMISE failed: the violation %q did not reproduce in this process\n", rf.Violation.Sig)
